@@ -478,7 +478,7 @@ class BitmapHist : public Engine {
         bool fault_fired = false;
         std::string fault_site;
         bool transitions = false, reloaded = false;
-        std::vector<std::string> partials; // unreported-partial notes (C18 item 5)
+        Fail partial;           // first unreported-partial (C18 item 5), reported if nothing else fails
     };
 
     void free_world(World &w) {
@@ -678,15 +678,19 @@ class BitmapHist : public Engine {
                                    std::to_string(target.count()));
                         break;
                     }
-                    if (now != target) {
+                    if (now != target && res.partial.cls.empty()) {
+                        // recorded, the model is re-synchronised and the history goes on,
+                        // so that this class does not mask later ones
                         stat("c18.unreported-partial");
-                        res.partials.push_back(opkey + " site=" + info.fault_site);
+                        Fail keep = res.fail;
                         failed("unreported-partial",
                                "void mutator applied only part of its effect after a failed allocation and cannot "
                                "report it: " +
                                    std::to_string(now.count()) + " members, fully applied would be " +
                                    std::to_string(target.count()));
-                        break;
+                        res.partial = res.fail;
+                        res.fail = keep;
+                        res.fail_op = -1;
                     }
                     m = now;
                 }
@@ -823,6 +827,7 @@ class BitmapHist : public Engine {
             res.fail.detail = std::to_string(alloc::live_count()) + " blocks live after all objects were freed";
         }
         alloc::reset_run();
+        if (res.fail.cls.empty() && !res.partial.cls.empty()) res.fail = res.partial;
         return res;
     }
 
@@ -883,11 +888,15 @@ class BitmapHist : public Engine {
             ExecRes r = run_history(plan, cfg);
             out.cases++;
             if (!r.fail.cls.empty() && r.fail.cls != "skip") {
-                out.cls = r.fail.cls;
-                out.key = r.fail.key;
-                out.detail = r.fail.detail;
-                out.binds.push_back({(size_t)target, "fail", k});
-                break;
+                bool partial = r.fail.cls == "unreported-partial";
+                if (!partial || out.cls == "ok") {
+                    out.cls = r.fail.cls;
+                    out.key = r.fail.key;
+                    out.detail = r.fail.detail;
+                    out.binds.clear();
+                    out.binds.push_back({(size_t)target, "fail", k});
+                }
+                if (!partial) break; // an unreported-partial does not end the enumeration
             }
             if (!r.fault_fired) break; // request k does not exist: enumeration complete
             stat("c18.cases_fault_fired");
